@@ -21,7 +21,7 @@ TRUSTED = ["props/_sel.py: the AST object printed as SCSS text (for rsass) and a
            "python text oracle of the property (textual `outer inner` / `&` substitution)"]
 ASSUMPTIONS = ["names are plain identifiers (escapes are C25's subject)",
                "`CompoundSelector::append` (print + re-parse) is modelled structurally; the cases in which the re-parse "
-               "fails (panic, owned by C01) are predicted by the model and not judged here",
+               "fails are predicted by the model and must be compile errors (a panic before /repo 1acf5fd)",
                "where the rows of the round-robin merge differ in length the statement fixes no order: the oracle then "
                "compares the emitted selectors as a multiset, the correspondence compares the exact order"]
 
@@ -496,12 +496,13 @@ def judge(case, impl, asis, spec):
     f = case.lines[0].split("\t")
     style = f[2]
     got, blocks = canon_impl(impl, style)
-    m_asis = "panic" if asis == "panic" else unhx(asis)
-    m_spec = "panic" if spec == "panic" else unhx(spec)
+    m_asis = asis if asis in ("panic", "err") else unhx(asis)
+    m_spec = spec if spec in ("panic", "err") else unhx(spec)
     corr = got == m_asis
-    if m_asis == "panic" or m_spec == "panic":
-        # the re-parse of `outer` + suffix fails: C01's panic site, no statement of C19 applies
-        return Verdict(corr, None)
+    if m_spec == "err":
+        # a parent that cannot take the `&` suffix: Sass (and the code since 1acf5fd) reports
+        # `Parent ".." is incompatible with this selector.`; a panic is the old defect
+        return Verdict(corr, None if got == "err" else "`&` suffix on a parent that cannot take it must be an error, got " + got[:40])
     if blocks is None:
         return Verdict(corr, "compilation failed: " + impl[:60])
     why = None
